@@ -80,11 +80,10 @@ def run_task(task):
                 return out
             out["stats"] = dict(ex.stats)
             out["assumed_used"] = sorted(ex.assumed_used)
-            si, sn = task.get("shard", (0, 1))
+            out["contracts_used"] = sorted(ex.contracts_used)
             out["n_obligations_total"] = len(obls)
-            for k, o in enumerate(obls):
-                if k % sn != si:
-                    continue
+
+            def discharge_one(o):
                 r = solve.discharge(o, timeout_ms=task["timeout_ms"])
                 r = settle_unknown(o, r, task, solve)
                 d = r.to_dict()
@@ -92,7 +91,15 @@ def run_task(task):
                     from pyvc import replay
                     d["replay"] = replay.try_replay(ix, reg, task["name"], o, r)
                 d["inputs_model"] = _jsonable(d.get("inputs_model"))
-                out["results"].append(d)
+                d["model"] = _jsonable(d.get("model"))
+                return d
+
+            fan = int(task.get("fanout", 1))
+            if fan <= 1 or len(obls) < 2 * fan:
+                out["results"] = [discharge_one(o) for o in obls]
+            else:
+                # the symbolic execution is done once; the obligations are discharged by forked children (which inherit the terms)
+                out["results"] = _fan_out(obls, fan, discharge_one)
         elif task["kind"] == "lemma":
             lem = reg.lemmas[task["name"]]
             from pyvc.symex import Obl
@@ -115,6 +122,44 @@ def run_task(task):
     finally:
         out["wall_s"] = time.time() - t0
     return out
+
+
+def _fan_out(obls, fan, fn):
+    import pickle
+    kids = []
+    for i in range(fan):
+        r, w = os.pipe()
+        pid = os.fork()
+        if pid == 0:
+            os.close(r)
+            try:
+                res = [(k, fn(o)) for k, o in enumerate(obls) if k % fan == i]
+                payload = pickle.dumps(("ok", res))
+            except BaseException:
+                payload = pickle.dumps(("err", traceback.format_exc()))
+            with os.fdopen(w, "wb") as f:
+                f.write(payload)
+            os._exit(0)
+        os.close(w)
+        kids.append((pid, r))
+    import pickle as _p
+    merged = {}
+    errs = []
+    for pid, r in kids:
+        with os.fdopen(r, "rb") as f:
+            data = f.read()
+        os.waitpid(pid, 0)
+        if not data:
+            errs.append("child died without output")
+            continue
+        tag, res = _p.loads(data)
+        if tag == "err":
+            errs.append(res)
+        else:
+            merged.update(dict(res))
+    if errs:
+        raise RuntimeError("fan-out child failed: " + errs[0][-500:])
+    return [merged[k] for k in sorted(merged)]
 
 
 def _jsonable(x):
@@ -168,9 +213,8 @@ def main(argv=None):
     shards = P.get("shards", {})
     for fn in P.get("functions", []):
         n = shards.get(fn, plan.SHARDS.get(fn, 1))
-        for i in range(n):
-            tasks.append(dict(kind="fn", name=fn, prop=args.prop, timeout_ms=timeout_ms, shard=(i, n), record=args.record_baseline))
-    tasks.sort(key=lambda t: -t.get("shard", (0, 1))[1])
+        tasks.append(dict(kind="fn", name=fn, prop=args.prop, timeout_ms=timeout_ms, fanout=n, record=args.record_baseline))
+    tasks.sort(key=lambda t: -t.get("fanout", 1))
     for lm in P.get("lemmas", []):
         tasks.append(dict(kind="lemma", name=lm, prop=args.prop, timeout_ms=timeout_ms, record=args.record_baseline))
     for b in P.get("bounded", []):
@@ -192,6 +236,8 @@ def main(argv=None):
     fn_rows = []
     bounded_rows = []
     assumed_used = set()
+    contracts_used = set()
+    canary_groups = {}
     for out in outs:
         task = out["task"]
         if out["error"]:
@@ -203,6 +249,7 @@ def main(argv=None):
             undecided.append(f"unsupported construct: {out['unsupported']}")
             continue
         assumed_used.update(out.get("assumed_used", []))
+        contracts_used.update(out.get("contracts_used", []))
         if task["kind"] == "bounded":
             b = out["bounded"]
             if b.get("error"):
@@ -215,11 +262,11 @@ def main(argv=None):
         k_all = k_ok = 0
         for r in out["results"]:
             if r["kind"] == "canary":
-                if r["status"] == "canary-vacuous":
-                    canaries["vacuous"] += 1
-                    broken.append(f"vacuous hypotheses: {r['name']}")
-                else:
-                    canaries["ok"] += 1
+                # a call-site canary that is `unsat` on one path only says that this path is infeasible; the hypotheses of a
+                # call site are vacuous only if they are contradictory on every path through it
+                key = norm_name(r["name"])
+                g = canary_groups.setdefault(key, dict(ok=0, vacuous=0, strict=r["name"].endswith("requires/satisfiable")))
+                g["ok" if r["status"] != "canary-vacuous" else "vacuous"] += 1
                 continue
             if not relevant(r, args.prop):
                 continue
@@ -261,6 +308,13 @@ def main(argv=None):
         with open(p, "w") as f:
             json.dump(doc, f, indent=0, sort_keys=True)
         print(f"recorded {len(doc[args.prop])} discharged obligation names for {args.prop}")
+    for key, g in canary_groups.items():
+        if g["ok"] == 0 and g["vacuous"] > 0:
+            canaries["vacuous"] += 1
+            broken.append(f"vacuous hypotheses on every path: {key}")
+        else:
+            canaries["ok"] += 1
+            canaries["infeasible_paths"] = canaries.get("infeasible_paths", 0) + g["vacuous"]
     # ---- violations vs known findings
     os.makedirs(os.path.join(OUT, "replays", args.prop), exist_ok=True)
     real_violations = []
@@ -305,7 +359,7 @@ def main(argv=None):
     wall = time.time() - t0
     slowest.sort(reverse=True)
     ev = build_evidence(args, P, seed, wall, n_obl, n_dis, by_backend, solver_s, samples, slowest[:5], canaries, fn_rows,
-                        bounded_rows, undecided, broken, real_violations, known_hits, sorted(assumed_used))
+                        bounded_rows, undecided, broken, real_violations, known_hits, sorted(assumed_used), sorted(contracts_used))
     os.makedirs(os.path.join(OUT, "evidence"), exist_ok=True)
     with open(os.path.join(OUT, "evidence", f"{args.prop}.json"), "w") as f:
         json.dump(ev, f, indent=1, default=str)
@@ -334,7 +388,7 @@ def match_known(v, known):
 
 
 def build_evidence(args, P, seed, wall, n_obl, n_dis, by_backend, solver_s, samples, slowest, canaries, fn_rows, bounded_rows,
-                   undecided, broken, violations, known_hits, assumed_used):
+                   undecided, broken, violations, known_hits, assumed_used, contracts_used=()):
     import plan
     level = P["level"]
     trusted = list(plan.TRUSTED_COMMON) + list(P.get("trusted", []))
@@ -356,6 +410,9 @@ def build_evidence(args, P, seed, wall, n_obl, n_dis, by_backend, solver_s, samp
         samples=samples or [dict(note="no obligation discharged")],
         canaries=canaries,
         assumed_contracts_used=assumed_used,
+        callee_contracts_used=list(contracts_used),
+        callee_contracts_not_verified_anywhere=[c for c in contracts_used if c not in plan.all_verified_functions()
+                                                and c.split("@")[0] not in plan.all_verified_functions()],
         bounded=bounded_rows,
         undecided=undecided[:50], checker_broken=broken[:50],
         known_findings_reported=[kf["id"] for kf, _ in known_hits],
